@@ -117,6 +117,7 @@ def check(run, replay, prop):
         scheds.append((gen("c", n // 3, 9, docs='{"d1","d2"}', txns="{1,2}", maxval=2), "indexed"))
         scheds.append((gen("e", n // 3, 9, docs='{"d1","d2"}', txns="{1,2}", maxval=2), "concurrent"))
         if prop == "C20" or thorough:
+            scheds.append((gen("f", n // 4, 9, docs='{"d1","d2"}', txns="{1,2}", maxval=2), "patched"))
             scheds.append((gen("d", n // 3, 9, docs='{"d1","d2"}', txns="{1,2}", maxval=2), "branchable"))
         if thorough:
             # every complete schedule of the bounded generator graph (all interleavings of two transactions)
@@ -132,7 +133,7 @@ def check(run, replay, prop):
     for i, (f, variant) in enumerate(scheds):
         trace = os.path.join(run.tmp, "trace-%d.ndjson" % i)
         stats = os.path.join(run.tmp, "stats-%d.json" % i)
-        args = ["-sched", f, "-out", trace, "-stats", stats, "-variant", variant, "-gql", "4" if prop == "C20" else "12"]
+        args = ["-sched", f, "-out", trace, "-stats", stats, "-variant", variant, "-gql", "1" if variant == "patched" else ("4" if prop == "C20" else "12")]
         if replay:
             args += ["-replayfile"]
         if not thorough:
